@@ -213,7 +213,7 @@ func Performance(dpv *journal.Performance) float64 {
 	if v0 == v1 && inflow == 0 && outflow == 0 {
 		return 1
 	}
-	if math.Abs(v0+inflow) < 1e-9 {
+	if math.Abs(v0+inflow) < 1e-9+1e-12*(math.Abs(v0)+math.Abs(inflow)) {
 		// no capital at work (e.g. a short position that is covered): there is no return to speak of
 		return 1
 	}
